@@ -94,6 +94,14 @@ def argswap_good(self, new_statements):
     return _Collab(new_statements, self.stmt_id_gen, self.var_name_gen)
 
 
+def strip_bad(var_name):
+    return var_name.lstrip("<state>")
+
+
+def strip_good(var_name):
+    return var_name[len("<state>"):] if var_name.startswith("<state>") else var_name.lstrip("_ ")
+
+
 def mutate_bad(statement):
     loops = statement.loops
     loops.reverse()
@@ -138,6 +146,21 @@ def _split(f):
             if isinstance(recv, ast.Constant) and isinstance(recv.value, str) \
                     and len(recv.value) <= 2 and not isinstance(arg, ast.Constant):
                 out.append((x, f"{norm(x, 40)}: separator and data are swapped"))
+    return out
+
+
+def _strip(f):
+    """str.strip / lstrip / rstrip take a *set of characters*: a word as
+    argument is a prefix / suffix removal that also eats into the rest."""
+    out = []
+    for x in ast.walk(f.node):
+        if isinstance(x, ast.Call) and isinstance(x.func, ast.Attribute) \
+                and x.func.attr in ("strip", "lstrip", "rstrip") and len(x.args) == 1 \
+                and isinstance(x.args[0], ast.Constant) and isinstance(x.args[0].value, str):
+            a = x.args[0].value
+            if len(a) >= 2 and sum(c.isalnum() for c in a) >= 2:
+                out.append((x, f"{norm(x, 50)}: strips every leading/trailing character in "
+                               f"{sorted(set(a))}, not the word"))
     return out
 
 
@@ -286,6 +309,7 @@ LINTS = [
     ("zip", _zip, True),
     ("split", _split, True),
     ("setor", _setor, True),
+    ("strip", _strip, True),
     ("mutate", _mutate, False),     # only for modules that are handed a description
 ]
 
@@ -307,7 +331,8 @@ def lints(run, P, prop, extra_files=()):
     run.rule(rule, "repository-specific lints over the anchored files: no value used in "
              "a loop that is only computed in another loop; parallel sequences ordered "
              "alike; no loop variable used in a later loop; no identity comparison of values; data "
-             "split by separator; union, not 'or', of variable sets; no "
+             "split by separator; union, not 'or', of variable sets; no word handed to "
+             "strip(); no "
              "argument passed under another parameter's name; no in-place change of a "
              "description handed in", minimum=3)
     files = sorted(set(anchor_files(prop)) | set(extra_files))
